@@ -455,6 +455,80 @@ pub fn run(t: &mut Trace, rng: &mut Rng, thorough: bool) {
     digit_cases(t, rng, thorough);
     random_long(t, rng, thorough);
     overlap_stress(t, rng, thorough);
+    alias_alphabet(t, thorough);
+}
+
+/// Code points that alias modulo 2^8 / 2^16 (97, 97+256, 97+512, 97+65536) together with an
+/// unrelated letter: skip tables or hashes keyed by a truncated character confuse them.
+/// Exhaustive: all patterns up to length 2 (thorough 3) in all texts up to length 4 (thorough 5).
+fn alias_alphabet(t: &mut Trace, thorough: bool) {
+    let alpha: [u32; 4] = [120, 97, 97 + 256, 97 + 65536];
+    let gen = |maxlen: usize| -> Vec<Vec<u32>> {
+        let mut out: Vec<Vec<u32>> = vec![vec![]];
+        let mut frontier: Vec<Vec<u32>> = vec![vec![]];
+        for _ in 0..maxlen {
+            let mut next = Vec::new();
+            for w in &frontier {
+                for &c in &alpha {
+                    let mut x = w.clone();
+                    x.push(c);
+                    next.push(x);
+                }
+            }
+            out.extend(next.iter().cloned());
+            frontier = next;
+        }
+        out
+    };
+    let pats = gen(if thorough { 3 } else { 2 });
+    let texts = gen(if thorough { 5 } else { 4 });
+    let z = mk(&[90]);
+    for p in pats.iter().filter(|p| !p.is_empty()) {
+        let ps_ = mk(p);
+        for tx in &texts {
+            if tx.len() < p.len() {
+                continue;
+            }
+            let ts = mk(tx);
+            t.count("alias_alphabet");
+            op_indexof(t, &ts, &ps_, 0);
+            op_bool2(t, "contains", str_contains, &ts, &ps_);
+            if tx.len() >= 3 {
+                op_replace(t, &ts, &ps_, &z);
+            }
+        }
+    }
+    // lexicographic order and surrogates / aliasing characters at single positions
+    let specials: [u32; 8] = [0xD7FF, 0xD800, 0xDFFF, 0xE000, 0xFFFD, 0xFFFF, 0x10000, 97 + 256];
+    for &c in &specials {
+        let s1 = mk(&[97, c, 98]);
+        for i in -1..4 {
+            op_at(t, &s1, i);
+            op_substr(t, &s1, i, 1);
+        }
+        for &d in &specials {
+            let s2 = mk(&[97, d, 98]);
+            op_bool2(t, "lt", str_lt, &s1, &s2);
+            op_bool2(t, "le", str_le, &s1, &s2);
+        }
+    }
+    // long common prefixes: the first difference at every index up to 70 (block-wise comparisons)
+    for n in 0..70usize {
+        let mut v = vec![97u32; n];
+        let mut w = v.clone();
+        v.push(98);
+        w.push(99);
+        v.extend_from_slice(&[100; 3]);
+        w.extend_from_slice(&[97; 5]);
+        let (sv, sw) = (mk(&v), mk(&w));
+        op_bool2(t, "lt", str_lt, &sv, &sw);
+        op_bool2(t, "le", str_le, &sw, &sv);
+        let pre = mk(&v[..n]);
+        op_bool2(t, "lt", str_lt, &pre, &sv);
+        op_bool2(t, "le", str_le, &sv, &pre);
+        op_bool2(t, "prefixof", str_prefixof, &pre, &sv);
+        op_bool2(t, "suffixof", str_suffixof, &pre, &sv);
+    }
 }
 
 /// Adversarial inputs for any search that skips ahead after a partial match (KMP-, two-way-,
